@@ -35,7 +35,7 @@ The theorems quantify over all of them.
 
 Blocks are `0 … size-1`, block 0 is the root of the tree, `par[b] < b` is the parent of `b`, the header number
 of `b` is `base + depth b`.  A block index `≥ size` is a hash nobody knows.
-Authorities are the keys `0 … n-1`; `me` is the key of the Service.
+Authorities are the keys listed in `voters` (the current set); `me` is the key of the Service.
 -/
 namespace Gossamer.C21
 
@@ -100,7 +100,7 @@ inductive Chg where
   deriving DecidableEq, Repr
 
 structure Cfg where
-  n : Nat
+  voters : List Nat   -- `State.voters`: the keys of the current authority set, in order
   me : Nat
   base : Nat
   t : Tree
@@ -110,6 +110,9 @@ structure Cfg where
   set : Nat
   strict : Bool := false   -- `true`: the vote number is checked against the header (what the property demands)
   deriving Repr
+
+/-- `len(s.state.voters)` -/
+def Cfg.n (c : Cfg) : Nat := c.voters.length
 
 def Cfg.number (c : Cfg) (b : Nat) : Nat := c.base + c.t.depth b
 def Cfg.voteOf (c : Cfg) (b : Nat) : Vote := ⟨b, c.number b⟩
@@ -183,7 +186,7 @@ def validateVoteMessage (c : Cfg) (s : St) (m : Msg) : Option Err × St :=
   else if m.mround < c.round - 1 ∨ c.round + 1 < m.mround then (some .oob, s)
   else if m.mround < c.round then (some .lag, s)
   else if c.round < m.mround then (some .ahead, { s with trk := trackAdd s.trk m.blk m.key })
-  else if c.n ≤ m.key then (some .voter, s)
+  else if m.key ∉ c.voters then (some .voter, s)
   else if m.key = c.me then (some .self, s)
   else
     let vote : Vote := ⟨m.blk, m.num⟩
@@ -226,6 +229,45 @@ def step (c : Cfg) (s : St) : Op → St
   | .own stage b => ownVote c s stage b
 
 def run (c : Cfg) (ops : List Op) : St := ops.foldl (step c) {}
+
+/-! ### authority-set changes: `initiateRound` → `updateAuthorities` -/
+
+/-- what the node's state answers while a round is initiated -/
+structure Init where
+  cur : Nat             -- GrandpaState.GetCurrentSetID
+  auths : List Nat      -- GrandpaState.GetAuthorities(cur)
+  hr : Nat              -- BlockState.GetHighestRoundAndSetID
+  hs : Nat
+  head : Nat            -- BlockState.GetFinalisedHeader(hr, hs): a block of the tree
+  deriving Repr, DecidableEq
+
+/-- `updateAuthorities`: a new set id replaces the voters and resets the round -/
+def updateAuthorities (c : Cfg) (i : Init) : Cfg :=
+  if i.cur = c.set then c else { c with voters := i.auths, set := i.cur, round := 0 }
+
+/-- `initiateRound`: authority change, catch up with a higher finalised round / set id (the set id alone – the
+voters are NOT reloaded on that path), new finalised head, next round, all four tallies emptied.  The tracker is
+kept. -/
+def initiateRound (c : Cfg) (s : St) (i : Init) : Cfg × St :=
+  let c1 := updateAuthorities c i
+  let c2 := if c1.round < i.hr ∧ i.hs = c1.set then { c1 with round := i.hr } else c1
+  let c3 := if c2.set < i.hs then { c2 with set := i.hs, round := i.hr } else c2
+  ({ c3 with fin := i.head, round := c3.round + 1 }, { trk := s.trk })
+
+/-- an event of a history with authority-set changes -/
+inductive Ev where
+  | msg (m : Msg)
+  | own (stage : Nat) (b : Nat)   -- ignored unless `b` is a block of the tree on the chain of the current head
+  | init (i : Init)
+  deriving Repr, DecidableEq
+
+def stepAll (cs : Cfg × St) : Ev → Cfg × St
+  | .msg m => (cs.1, (validateVoteMessage cs.1 cs.2 m).2)
+  | .own stage b =>
+    if b < cs.1.t.size ∧ cs.1.t.le cs.1.fin b then (cs.1, ownVote cs.1 cs.2 stage b) else cs
+  | .init i => initiateRound cs.1 cs.2 i
+
+def runAll (c : Cfg) (evs : List Ev) : Cfg × St := evs.foldl stepAll (c, {})
 
 /-! ### iteration orders of Go maps -/
 
@@ -343,7 +385,7 @@ def determinePreCommit (c : Cfg) (o : Ord) (s : St) : Except Err Vote := do
 /-- `determinePreVote` -/
 def determinePreVote (c : Cfg) (s : St) : Except Err Vote :=
   let bestVote := c.voteOf c.t.best
-  let vote := match aget s.pv (c.round % c.n) with
+  let vote := match aget s.pv (c.voters.getD (c.round % c.n) 0) with
     | some prm => if c.headNum ≤ prm.num then prm else bestVote
     | none => bestVote
   capVote c vote
